@@ -1286,7 +1286,7 @@ impl<'a, F: Function + MathFunction + Clone + Cross> World<'a, F> {
         let parent_clean = self.slots[s].clean.clone();
         let mut rh =
             RenderHandle::new(Shape::new_raw(self.slots[s].dirty.clone()));
-        let steps = 1 + self.ch(|c| c.choose("rh_steps", 5));
+        let steps = 1 + self.ch(|c| c.choose("rh_steps", 7));
         let mut boxes: Vec<Vec<(f32, f32)>> = vec![];
         for _ in 0..steps {
             // revisit an earlier box half of the time so that the cache hits
@@ -1753,8 +1753,8 @@ impl<'a, F: Function + MathFunction + Clone + Cross> World<'a, F> {
         };
         let weights: &[u32] = match self.mode {
             // eval, simplify, new, recycle, clone, move, held, rh, shape-eval
-            Mode::C10 => &[10, 5, 2, 2, 1, 1, 2, 2, 4],
-            Mode::C04 => &[8, 9, 2, 1, 1, 1, 0, 3, 0],
+            Mode::C10 => &[10, 5, 2, 2, 1, 1, 2, 3, 4],
+            Mode::C04 => &[8, 9, 2, 1, 1, 1, 0, 5, 0],
         };
         let total: u32 = weights.iter().sum();
         let mut r = self.ch(|c| c.choose("op", total));
